@@ -183,7 +183,7 @@ def jobs_C10(tier, scale):
 def jobs_C11(tier, scale):
     q = tier == "quick"
     cl = _classes(["DS", "US", "DL", "UL"], ["int"])
-    jobs = [graph_job("C11", "bfs", cl, tier, scale, 4000, 150000, "generated graphs n<=10 (cycles through the source, loops, components, ties)", nmax=10, max_size=60),
+    jobs = [graph_job("C11", "bfs", cl, tier, scale, 4000, 150000, "generated graphs n<=10 (cycles through the source, loops, components, ties); 30 % searched on a copy, a container-constructor rebuild or a moved-to object", nmax=10, max_size=60, via=30),
             graph_job("C11", "bfs", cl, tier, scale, 96, 2400, "a validated search repeated after 2^8-1 (7 of 8 cases) or 2^16-1 other searches that never reach its source", nmin=2, nmax=9, max_size=60,
                       wrap_permille=1000, noshrink=1),
             graph_job("C11", "bfs", cl, tier, scale, 1000, 30000, "generated graphs whose neighbour lists hold repeated entries (forced duplicates): predecessor lists and path sets still without repeats",
@@ -408,7 +408,9 @@ def c17_replay(pid, path, text):
 
 def jobs_C18(tier, scale):
     return [graph_job("C18", "conc", _classes(ALL8, ["int", "string"]), tier, scale, 1600, 32000, "concurrent readers on a shared graph (T in {2,4,8}, 1-3 rounds, shuffled entry-point order)",
-                      config="tsan", nmin=3, nmax=7, conc=1, max_size=60)]
+                      config="tsan", nmin=3, nmax=7, conc=1, max_size=60),
+            graph_job("C18", "conc", _classes(ALL8, ["int", "string"]), tier, scale, 48, 960, "the same on shared graphs with 66-100 vertices and vertices of degree above 64 (subgraph subsets of more than 48 vertices, long neighbour lists)",
+                      config="tsan", big_pct=100, conc=1, max_size=30, floor=16)]
 
 
 def jobs_C20(tier, scale):
